@@ -351,6 +351,53 @@ def r10_7(run):
     run.count("functions accepting constant=", n)
 
 
+def r10_9(run):
+    """operand normalisation keeps arrays arrays.  A NumPy array / Python number handed to a mygrad function is a constant input; wrapping it with
+    astensor(x) / tensor(x) / Tensor(x) and *no* constant= turns a float array into a non-constant tensor, so the result of an all-constant call is
+    inferred non-constant (and the array acquires a .grad).  Wrapping is fine with an explicit constant=, or when the value was produced by an
+    operation of this function (then it already is a tensor)."""
+    from ..cfg import CFG, reaching_defs
+    n = 0
+    for fi in run.project.all_functions():
+        if fi.module.name.endswith(("tensor_base", "tensor_creation.funcs")) or fi.module.name.startswith("mygrad.nnet.initializers"):
+            continue
+        calls = [c for c in own_nodes(fi.node) if isinstance(c, ast.Call) and (dotted(c.func) or "").split(".")[-1] in ("astensor", "tensor", "Tensor")
+                 and c.args and kw(c, "constant") is None and not any(k.arg is None for k in c.keywords)]
+        if not calls:
+            continue
+        params = {a_.arg for a_ in fi.node.args.posonlyargs + fi.node.args.args + fi.node.args.kwonlyargs} - {"self", "cls"}
+        cfg = CFG(fi.node)
+        for c in calls:
+            at = cfg.stmt_node_containing(c)
+            if at is None:
+                continue
+            n += 1
+            raw = None
+            comp_vars = {}
+            p_ = getattr(c, "_parent", None)
+            while p_ is not None and p_ is not fi.node:
+                if isinstance(p_, (ast.ListComp, ast.GeneratorExp, ast.SetComp)):
+                    for g in p_.generators:
+                        for x in ast.walk(g.target):
+                            if isinstance(x, ast.Name):
+                                comp_vars[x.id] = g.iter
+                p_ = getattr(p_, "_parent", None)
+            arg0 = c.args[0]
+            while isinstance(arg0, ast.Subscript):
+                arg0 = arg0.value
+            for x in ([arg0] if isinstance(arg0, ast.Name) else []):  # the operand itself (or an item of it), not values computed from it
+                src = comp_vars.get(x.id)
+                names = [y.id for y in ast.walk(src) if isinstance(y, ast.Name)] if src is not None else [x.id]
+                for nm in names:
+                    if nm in params and ENTRY in reaching_defs(cfg, nm, at):
+                        raw = nm
+            run.ob("R10.9", loc(fi, c), fi.short, f"`{norm(c)[:50]}` does not re-wrap an operand the caller may have passed as an array", raw is None,
+                   "the wrapped value is produced by this function's own operations (already a tensor), or constant= is explicit" if raw is None else
+                   f"parameter `{raw}` reaches astensor/tensor without constant=: a float ndarray operand becomes a NON-constant tensor, so a call whose "
+                   f"inputs are all constant yields a non-constant result and the array receives a gradient")
+    run.count("tensor re-wrapping calls without constant=", n)
+
+
 def check(run):
     run.rule("R10.1", "Tensor.__init__ (tracking on): dtype gate raises before `_constant` is stored; default is `not is_float`; explicit flag kept", floor=6)
     run.rule("R10.2", "every value store to a tensor's _grad is on the non-constant edge of a `.constant` test (or is the seed after the constant early-exit)", floor=5)
@@ -366,3 +413,12 @@ def check(run):
     run.do(r10_5)
     run.do(r10_6)
     run.do(r10_7)
+    run.rule("R10.9", "no operand parameter is re-wrapped as a tensor without an explicit constant=", floor=0)
+    run.do(r10_9)
+    run.control("R10.9", r10_9, [("math/misc/funcs.py", None, None, "def _verif_control_r10_9(a, b, *, constant=None):\n    a = mg.astensor(a)\n    return matmul(a, b, constant=constant)")],
+                "astensor(<operand parameter>) without constant=")
+    run.rule("R10.8", "`constant` is consulted on every path of every function that accepts and uses it (2 reasoned exemptions)", floor=40)
+    from .util import path_dead_option
+    n = run.do(lambda r: path_dead_option(r, "R10.8", "constant", "the result's flag is decided by inference (or the operand is handed back as it is) although the "
+                                          "caller passed constant=True/False -- 'constant=... always wins' fails on that branch"))
+    run.count("functions with a `constant` option", n or 0)
